@@ -120,22 +120,22 @@ type World struct {
 	r  *simkit.Run
 	mu sync.Mutex
 	// Gen is stamped on components created from now on (C20 bumps it for every configuration it serves).
-	Gen         int
-	log         []Ev
-	plans       map[string]*compPlan
-	creates     map[string]int
-	deliveries  []delivery
-	gate        *simkit.Gate
-	recvs       map[string]*stubReceiver // key
-	hosts       map[string]component.Host
+	Gen        int
+	log        []Ev
+	plans      map[string]*compPlan
+	creates    map[string]int
+	deliveries []delivery
+	gate       *simkit.Gate
+	recvs      map[string]*stubReceiver // key
+	hosts      map[string]component.Host
 	// shutdownReported: instance key -> statuses its component reported from inside Shutdown (C11)
 	shutdownReported map[string][]componentstatus.Status
-	shared      *sharedcomponent.Map[component.ID, *stubShared]
-	statusLog   []string
-	onConsume   func(comp string, sig string, payload any) // optional tap (C06 graph mode)
-	comps       map[string]*stubBase
-	onStatus    func(instKey string, st componentstatus.Status)
-	failStartAt map[int]string
+	shared           *sharedcomponent.Map[component.ID, *stubShared]
+	statusLog        []string
+	onConsume        func(comp string, sig string, payload any) // optional tap (C06 graph mode)
+	comps            map[string]*stubBase
+	onStatus         func(instKey string, st componentstatus.Status)
+	failStartAt      map[int]string
 }
 
 func NewWorld(r *simkit.Run) *World {
